@@ -945,12 +945,61 @@ def _concretise(self):
     return x.const_value() if not x.is_const() else x.const_value()
 
 
-@H("eq", "__eq__", "ne", "__ne__", "lt", "__lt__", "le", "__le__", "gt", "__gt__", "ge", "__ge__")
-def _cmp(a, b):
-    raise ValueDependent("comparison involving a symbolic tensor")
+def _const_array(x):
+    """float ndarray of a tensor-like whose entries are all concrete, else None"""
+    if isinstance(x, SymTensor):
+        a = x._arr
+        out = np.empty(a.shape, dtype=float)
+        for k in np.ndindex(*a.shape):
+            if not a[k].is_const():
+                return None
+            v = a[k].const_value()
+            if isinstance(v, complex):
+                return None
+            out[k] = float(v)
+        return out
+    if isinstance(x, torch.Tensor):
+        return x.detach().numpy().astype(float)
+    return np.asarray(float(x))
 
 
-@H("all", "any", "nonzero", "argmax", "argmin", "max", "min", "sort", "argsort", "unique", "round", "int", "long",
+def _mk_cmp(opname):
+    op = getattr(_op, opname)
+
+    def f(a, b):
+        A_, B_ = _const_array(a), _const_array(b)
+        if A_ is None or B_ is None:
+            raise ValueDependent("comparison involving a symbolic tensor")
+        return _real_tensor(op(A_, B_))          # entries are concrete: an ordinary bool tensor
+    return f
+
+
+for _n, _o in (("eq", "eq"), ("__eq__", "eq"), ("ne", "ne"), ("__ne__", "ne"), ("lt", "lt"), ("__lt__", "lt"), ("le", "le"), ("__le__", "le"),
+               ("gt", "gt"), ("__gt__", "gt"), ("ge", "ge"), ("__ge__", "ge")):
+    HANDLERS[_n] = _mk_cmp(_o)
+
+
+def _real_tensor(x):
+    return _PROXY._real.tensor(x) if "_PROXY" in globals() else torch.tensor(x)
+
+
+@H("all")
+def _all(a, *args, **k):
+    A_ = _const_array(a)
+    if A_ is None:
+        raise ValueDependent("all() of a symbolic tensor")
+    return _real_tensor(bool((A_ != 0).all()))
+
+
+@H("any")
+def _any(a, *args, **k):
+    A_ = _const_array(a)
+    if A_ is None:
+        raise ValueDependent("any() of a symbolic tensor")
+    return _real_tensor(bool((A_ != 0).any()))
+
+
+@H("nonzero", "argmax", "argmin", "max", "min", "sort", "argsort", "unique", "round", "int", "long",
    "bool", "floor", "ceil", "sign", "where", "isnan", "isinf", "isfinite", "allclose", "equal")
 def _valdep(*a, **k):
     raise ValueDependent("value-dependent primitive on a symbolic tensor")
